@@ -6,9 +6,11 @@ from lockstep import run_impl, run_model, first_diff, shrink
 
 # property -> store/edge families whose correspondence it depends on
 STORE_FAMILIES = {
-    "C01": ["pos", "buf", "bufedge", "fleet"], "C02": ["pos", "buf", "bufedge", "fleet"], "C04": ["pos", "buf", "bufedge", "fleet"],
-    "C05": ["pos", "buf", "prq"], "C06": ["pos", "buf", "bufedge", "fleet"], "C07": ["pos", "buf", "bufedge", "fleet"],
-    "C10": ["pos", "buf"], "C11": ["bufedge", "buf"], "C14": ["fleet"], "C18": ["pos", "bufedge", "fleet"], "C19": ["pos", "buf"],
+    "C01": ["pos", "buf", "bufedge", "fleet", "slot"], "C02": ["pos", "buf", "bufedge", "fleet", "slot"],
+    "C04": ["pos", "buf", "bufedge", "fleet", "slot"],
+    "C05": ["pos", "buf", "prq"], "C06": ["pos", "buf", "bufedge", "fleet", "slot"], "C07": ["pos", "buf", "bufedge", "fleet", "slot"],
+    "C10": ["pos", "buf"], "C11": ["bufedge", "buf"], "C12": ["slot"], "C13": ["slot"], "C14": ["fleet"],
+    "C18": ["pos", "bufedge", "fleet", "slot"], "C19": ["pos", "buf"],
     "C20": ["prq", "fleet"],
 }
 # judge property ids that decide each property at store level
